@@ -40,6 +40,9 @@ def run(ctx, progs):
         c05.dropper1(ctx, prog, cfg)
         drainrules.drainit1(ctx, prog, cfg)
         drainrules.drnview1(ctx, prog, cfg)
+        from .. import shapes
+
+        shapes.viewcmp1(ctx, prog, cfg, groups=[["Drain::as_slices", "Drain::as_mut_slices"]])
         backfill1(ctx, prog, cfg)
         eng = shared.run_mod1(prog)
         n = shared.report_requires(ctx, eng, "MOD1", cfg, entry_filter=DRAIN_ENTRIES)
